@@ -1251,6 +1251,9 @@ class _CompForRule(_CheckAssignmentRule):
             # since Python 3.7, only the other comprehensions need an
             # asynchronous function.
             container = node.parent.parent
+            while container.type in ('sync_comp_for', 'comp_for', 'comp_if'):
+                # Not the first for clause of the comprehension.
+                container = container.parent
             if container.type == 'argument' \
                     or container.type == 'testlist_comp' and container.parent.children[0] == '(':
                 return False
